@@ -17,16 +17,19 @@ NEG = {'<': '>=', '<=': '>', '>': '<=', '>=': '<', '==': '!=', '!=': '=='}
 
 
 class B:
-    __slots__ = ('lo', 'hi', 'ubs', 'lbs', 'bot')
+    __slots__ = ('lo', 'hi', 'ubs', 'lbs', 'bot', 'slo')
 
     def __init__(self, lo=None, hi=None, ubs=(), lbs=(), bot=False):
         self.lo, self.hi = lo, hi
         self.ubs = set(ubs)   # {(op, str)}: value op str, op in '<', '<='
         self.lbs = set(lbs)   # {(op, str)}: value op str, op in '>', '>='
         self.bot = bot        # bottom: no path reaches here under the current (optimistic) loop assumption
+        self.slo = {}         # symbolic bound string -> numeric lower bound of that expression when the fact was established
 
     def copy(self):
-        return B(self.lo, self.hi, self.ubs, self.lbs, self.bot)
+        r = B(self.lo, self.hi, self.ubs, self.lbs, self.bot)
+        r.slo = dict(self.slo)
+        return r
 
     def key(self):
         return (self.lo, self.hi, frozenset(self.ubs), frozenset(self.lbs), self.bot)
@@ -65,6 +68,20 @@ def join(bs):
     hi = None if any(b.hi is None for b in bs) else max(b.hi for b in bs)
     ubs = set.intersection(*(b.ubs for b in bs))
     lbs = set.intersection(*(b.lbs for b in bs))
+    slo = {}
+    for b in bs:
+        for k2, v2 in b.slo.items():
+            slo[k2] = v2 if k2 not in slo else min(slo[k2], v2)
+    # a side without the symbolic bound x < S still satisfies it when its numeric hi is below the known minimum of S
+    for (op, s_) in set.union(*(b.ubs for b in bs)):
+        if (op, s_) in ubs or s_ not in slo:
+            continue
+        def has(b):
+            if (op, s_) in b.ubs or (op == '<=' and ('<', s_) in b.ubs):
+                return True
+            return b.hi is not None and b.hi <= slo[s_] - (1 if op == '<' else 0)
+        if all(has(b) for b in bs):
+            ubs.add((op, s_))
     # x < E on one path and x <= E on the other: keep the weaker
     allub = set.union(*(b.ubs for b in bs))
     for op, s in allub:
@@ -76,7 +93,9 @@ def join(bs):
         if all((('>', s) in b.lbs or ('>=', s) in b.lbs) for b in bs):
             if ('>', s) not in lbs:
                 lbs.add(('>=', s))
-    return B(lo, hi, ubs, lbs)
+    r = B(lo, hi, ubs, lbs)
+    r.slo = {k2: v2 for k2, v2 in slo.items() if any(k2 == s2 for (_, s2) in ubs)}
+    return r
 
 
 def meet(a, b):
@@ -84,7 +103,27 @@ def meet(a, b):
         return B(bot=True)
     lo = a.lo if b.lo is None else (b.lo if a.lo is None else max(a.lo, b.lo))
     hi = a.hi if b.hi is None else (b.hi if a.hi is None else min(a.hi, b.hi))
-    return B(lo, hi, a.ubs | b.ubs, a.lbs | b.lbs)
+    r = B(lo, hi, a.ubs | b.ubs, a.lbs | b.lbs)
+    r.slo = dict(a.slo)
+    r.slo.update(b.slo)
+    return r
+
+
+def _leq(a, b):
+    """a is at least as precise as b (a ⊑ b)"""
+    if b.bot:
+        return a.bot
+    if a.bot:
+        return True
+    if b.lo is not None and (a.lo is None or a.lo < b.lo):
+        return False
+    if b.hi is not None and (a.hi is None or a.hi > b.hi):
+        return False
+    def has_ub(x, op, s):
+        return (op, s) in x.ubs or (op == '<=' and ('<', s) in x.ubs)
+    def has_lb(x, op, s):
+        return (op, s) in x.lbs or (op == '>=' and ('>', s) in x.lbs)
+    return all(has_ub(a, o, s) for (o, s) in b.ubs) and all(has_lb(a, o, s) for (o, s) in b.lbs)
 
 
 def type_range(t):
@@ -195,8 +234,12 @@ class Bounds:
                 r.hi = rb.hi - (1 if op == '<' else 0)
             if pure:
                 r.ubs.add((op, rs))
+                if rb.lo is not None:
+                    r.slo[rs] = rb.lo
             for o2, s2 in rb.ubs:
                 r.ubs.add(('<' if '<' in (op, o2) else '<=', s2))
+                if s2 in rb.slo:
+                    r.slo[s2] = rb.slo[s2]
         elif op in ('>', '>='):
             if rb.lo is not None:
                 r.lo = rb.lo + (1 if op == '>' else 0)
@@ -217,12 +260,32 @@ class Bounds:
         f = self.fn
         for x in f.walk(n):
             if x['k'] == 'CallExpr':
+                cal = x.get('callee')
+                if cal and cal in self.prog.fns and self.eff is not None and self._effect_free(cal):
+                    continue
                 return False
             if x['k'] in ('BinaryOperator', 'CompoundAssignOperator') and x['op'] in ASSIGN_OPS:
                 return False
             if x['k'] == 'UnaryOperator' and x['op'] in ('++', '--', 'post++', 'post--'):
                 return False
         return True
+
+    def _effect_free(self, name):
+        if not hasattr(self, '_ef_memo'):
+            self._ef_memo = {}
+        if name not in self._ef_memo:
+            ok = True
+            for nm in self.prog.reachable_from([name]):
+                if nm not in self.prog.fns:
+                    if nm not in ('strlen', 'abs', 'fabs', 'labs', 'strcmp', 'memcmp'):
+                        ok = False
+                    continue
+                for g in self.prog.fns[nm]:
+                    fl, gl, pa = self.eff.direct(g)
+                    if fl or gl or pa:
+                        ok = False
+            self._ef_memo[name] = ok
+        return self._ef_memo[name]
 
     # ---- backward must-search for an lvalue --------------------------------------------------
     def var(self, X, node, point, depth):
@@ -317,7 +380,7 @@ class Bounds:
             # reached block start
             preds = cfg.preds.get(b, [])
             if b == cfg.entry or not preds:
-                results.append(B())
+                results.append(getattr(self, 'entry_facts', {}).get(X, B()))
                 continue
             for pb in preds:
                 pbl = cfg.blocks[pb]
@@ -370,6 +433,45 @@ class Bounds:
             return True
         return False
 
+    def _root_sources(self, R):
+        """names a local pointer R may be derived from (through local definitions), including itself"""
+        if not hasattr(self, '_rs_memo'):
+            self._rs_memo = {}
+            from .util import local_defs
+            self._ldefs = local_defs(self.fn)
+        if R not in self._rs_memo:
+            from .util import flow_sources
+            srcs = {R}
+            for d in self._ldefs.get(R, []):
+                if d is not None:
+                    for x in flow_sources(self.fn, d, self._ldefs):
+                        srcs.add(x.split('->')[0].split('.')[0].split('[')[0])
+            self._rs_memo[R] = srcs
+        return self._rs_memo[R]
+
+    def _may_reach(self, c, X):
+        """can the callee of call c reach the object X lives in?  Only through a pointer argument related to X's root
+        variable (same variable, or one derived from / deriving the other), or if the root is not a local."""
+        f = self.fn
+        R = re.split(r'->|\.|\[', X)[0].lstrip('*&(')
+        rn = None
+        for n in f.walk():
+            if n['k'] == 'DeclRefExpr' and n['n'] == R:
+                rn = n
+                break
+        if rn is None or rn.get('dk') in ('global', 'static_local'):
+            return True
+        rs = self._root_sources(R)
+        for a in f.args(c):
+            t = a.get('t', '')
+            if not (t.rstrip().endswith('*') or t.rstrip().endswith(']')):
+                continue
+            for x in f.walk(a):
+                if x['k'] == 'DeclRefExpr' and x.get('dk') in ('local', 'param'):
+                    if x['n'] in rs or R in self._root_sources(x['n']):
+                        return True
+        return False
+
     def _call_kills(self, c, X, is_member, leaf, addr, node):
         f = self.fn
         if addr or is_member:
@@ -379,19 +481,26 @@ class Bounds:
                     return True
         if is_member:
             cal = c.get('callee')
+            rec = node.get('rec') if node is not None and node.get('k') == 'MemberExpr' else None
+
+            def writes(nm):
+                for (r, fl) in self.eff.trans_fields(nm):
+                    if fl == leaf and (rec is None or r is None or r == rec):
+                        return True
+                return False
             if self.eff is None:
-                return cal in self.prog.fns or cal is None
+                return (cal in self.prog.fns or cal is None) and self._may_reach(c, X)
             if cal:
                 if cal in self.prog.fns:
-                    return any(fl == leaf for (_, fl) in self.eff.trans_fields(cal))
+                    return writes(cal) and self._may_reach(c, X)
                 return False
             sl = self.prog.indirect_callee_slot(f, c)
             if sl:
                 for nm in self.prog.slot(sl[1], sl[0]):
-                    if any(fl == leaf for (_, fl) in self.eff.trans_fields(nm)):
-                        return True
+                    if writes(nm):
+                        return self._may_reach(c, X)
                 return False
-            return True
+            return self._may_reach(c, X)
         return False
 
     def _through_cast(self, b, ft, tt):
@@ -428,8 +537,8 @@ class Bounds:
             nxt = dict(self._assume)
             for key, new in self._memo.items():
                 old = self._assume.get(key)
-                if old is not None and old.key() == new.key():
-                    continue
+                if old is not None and (old.key() == new.key() or _leq(new, old)):
+                    continue   # assumption is a post-fixpoint for this key: the result computed under it is sound
                 if key in self._used:
                     stable = False
                 if it >= 3 and old is not None and not old.bot and not new.bot:
@@ -546,6 +655,7 @@ class Bounds:
                             r.hi = a.hi if r.hi is None else min(r.hi, a.hi)
                         if self._pure(f.N[K[1]]):
                             r.ubs.add(('<', f.s(K[1])))
+                            r.slo[f.s(K[1])] = b.lo
                     elif b.hi is not None:
                         r.lo, r.hi = -(b.hi - 1), b.hi - 1
             elif op == '&':
